@@ -76,6 +76,28 @@ static std::vector<Plan> c08_fixed(int tier) {
             }
         }
     }
+    // authenticated-but-malicious peer: every AEAD-sealed handshake message of a TLS 1.3 handshake (EncryptedExtensions, CertificateRequest,
+    // Certificate, CertificateVerify, Finished, NewSessionTicket; client Certificate / CertificateVerify / Finished) and the TLS 1.2 GCM
+    // Finished, edited before sealing at a sweep of offsets with boundary values, so that the post-decryption parsers see well-authenticated garbage
+    for (int cfgi = 0; cfgi < 3; cfgi++) {          // 0: TLS 1.3, 1: TLS 1.3 + client auth + tickets, 2: TLS 1.2 GCM
+        for (int dir = 0; dir < 2; dir++) {
+            for (int nth = 0; nth < (cfgi == 2 ? 1 : 6); nth++) {
+                int noff = tier ? 96 : 24;
+                for (int oi = 0; oi < noff; oi++) {
+                    for (int vi = 0; vi < (tier ? 4 : 2); vi++) {
+                        int off = oi < 12 ? oi : 12 + (oi - 12) * (tier ? 9 : 37);
+                        static const int W[] = { 1, 2, 1, 3 }; static const int MODE[] = { 0, 0, 1, 3 }; static const int VAL[] = { 0xff, 0xffff, 0, 0x800000 };
+                        Plan p; p.seed = 88000 + (uint64_t) ((((cfgi * 2 + dir) * 6 + nth) * 100 + oi) * 4 + vi);
+                        if (cfgi == 2) { p.cfg["ver"] = 1; p.cfg["suite"] = TLS_ECDHE_RSA_WITH_AES_128_GCM_SHA256; }
+                        else { p.cfg["ver"] = 2; p.cfg["suite"] = TLS_AES_128_GCM_SHA256; p.cfg["sid_kind"] = KK_EC256; if (cfgi == 1) { p.cfg["cauth"] = KK_EC256; p.cfg["tickets"] = 1; } }
+                        p.ops.push_back(Op("ptmut", dir, nth, off, (W[vi] - 1) | (MODE[vi] << 2) | (VAL[vi] << 4)));
+                        p.ops.push_back(Op("hs")); p.ops.push_back(Op("send", 1 - dir, 50)); p.ops.push_back(Op("pump"));
+                        v.push_back(p);
+                    }
+                }
+            }
+        }
+    }
     // DTLS with real fragmentation (PMTU 400 / 600): every early record of each direction re-labelled as a fragment of a longer message
     // that starts at or after the originally announced end
     for (int ver = 3; ver < 5; ver++) {
